@@ -71,7 +71,7 @@ class DecTotality(Totality):
 
 
 def run(ctx):
-    sf = env.load_selfies()
+    sf = env.varied(env.load_selfies(), ctx)
     rng = ctx.rng
     quick = ctx.tier == "quick"
     T = DecTotality(ctx, "decoder")
